@@ -122,17 +122,20 @@ ShareDecodes(inst, j, sh) ==
                 /\ DecVecOK(SubSeq(sh, 1, (InputLen(inst.c) + ProofLen(inst.c) * inst.np) * ENC), InputLen(inst.c) + ProofLen(inst.c) * inst.np)
   ELSE Len(sh) = HelperShareLen(inst)
 
-VInit(X, inst, key, ctx, j, nonce, pub, sh) ==
+\* `lead` says whether the share object is leader-shaped (explicit vectors) or helper-shaped (a
+\* seed).  Honestly lead = (j = 0); an aggregator handed the other kind of share still binds its
+\* own identifier j into every derivation (C18).
+VInitShaped(X, inst, key, ctx, j, lead, nonce, pub, sh) ==
   LET c == inst.c  jr == HasJR(inst)  il == InputLen(c)  pl == ProofLen(c) * inst.np IN
   IF j >= inst.nagg THEN Err("role")
   ELSE
   LET seed == SubSeq(sh, 1, SEED)
-      blind == IF j = 0 THEN SubSeq(sh, (il + pl) * ENC + 1, (il + pl) * ENC + SEED) ELSE SubSeq(sh, SEED + 1, 2 * SEED)
+      blind == IF lead THEN SubSeq(sh, (il + pl) * ENC + 1, (il + pl) * ENC + SEED) ELSE SubSeq(sh, SEED + 1, 2 * SEED)
   IN
-  IF j > 0 /\ ~(VecOK(X, QMeas(inst, ctx, seed, j), il) /\ VecOK(X, QProof(inst, ctx, seed, j), pl)) THEN Err("oracle:helper")
+  IF ~lead /\ ~(VecOK(X, QMeas(inst, ctx, seed, j), il) /\ VecOK(X, QProof(inst, ctx, seed, j), pl)) THEN Err("oracle:helper")
   ELSE
-  LET meas == IF j = 0 THEN DecVec(SubSeq(sh, 1, il * ENC), il) ELSE VecOf(X, QMeas(inst, ctx, seed, j), il)
-      prf == IF j = 0 THEN DecVec(SubSeq(sh, il * ENC + 1, (il + pl) * ENC), pl) ELSE VecOf(X, QProof(inst, ctx, seed, j), pl)
+  LET meas == IF lead THEN DecVec(SubSeq(sh, 1, il * ENC), il) ELSE VecOf(X, QMeas(inst, ctx, seed, j), il)
+      prf == IF lead THEN DecVec(SubSeq(sh, il * ENC + 1, (il + pl) * ENC), pl) ELSE VecOf(X, QProof(inst, ctx, seed, j), pl)
       pq == QPart(inst, ctx, blind, j, nonce, EncVec(meas))
   IN
   IF jr /\ ~HasSeed(X, pq) THEN Err("oracle:part")
@@ -155,8 +158,9 @@ VInit(X, inst, key, ctx, j, nonce, pub, sh) ==
   LET ver == Concat([p \in 1..inst.np |-> Query(c, meas, Piece(prf, ProofLen(c), p), qr(p), Piece(jrs, JointRandLen(c), p), inst.nagg)])
   IN [ok |-> TRUE,
       vshare |-> EncVec(ver) \o own,
-      state |-> (IF j = 0 THEN EncVec(Truncate(c, meas)) ELSE seed) \o jrseed,
+      state |-> (IF lead THEN EncVec(Truncate(c, meas)) ELSE seed) \o jrseed,
       out |-> Truncate(c, meas)]
+VInit(X, inst, key, ctx, j, nonce, pub, sh) == VInitShaped(X, inst, key, ctx, j, j = 0, nonce, pub, sh)
 
 -----------------------------------------------------------------------------
 (* verifier_shares_to_message on the list of encoded verifier shares *)
